@@ -1364,7 +1364,9 @@ func (r *Restore) Peering(p *pbpeering.Peering) error {
 		return fmt.Errorf("failed restoring peering: %w", err)
 	}
 
-	if err := updatePeeringTableIndexes(r.tx, p.ModifyIndex, p.PartitionOrDefault()); err != nil {
+	// Peerings are restored one by one: keep the highest index seen (and whatever the snapshot's index table
+	// says) instead of overwriting the table index with the index of the record restored last.
+	if err := indexUpdateMaxTxn(r.tx, p.ModifyIndex, tablePeering); err != nil {
 		return err
 	}
 
@@ -1375,7 +1377,7 @@ func (r *Restore) PeeringTrustBundle(ptb *pbpeering.PeeringTrustBundle) error {
 	if err := r.tx.Insert(tablePeeringTrustBundles, ptb); err != nil {
 		return fmt.Errorf("failed restoring peering trust bundle: %w", err)
 	}
-	if err := updatePeeringTrustBundlesTableIndexes(r.tx, ptb.ModifyIndex, ptb.PartitionOrDefault()); err != nil {
+	if err := indexUpdateMaxTxn(r.tx, ptb.ModifyIndex, tablePeeringTrustBundles); err != nil {
 		return err
 	}
 	return nil
